@@ -786,6 +786,86 @@ func main() {
 			collisionCheck(E, hOn, true, "canonical")
 		}
 
+		// fields that no signature covers (transaction Signature, header LeaderSignature): a copy that differs only
+		// there has the same signed content; if it is accepted it is a second valid copy under another hash
+		if len(E) > 0 && ce == nil && ve == nil {
+			for _, uv := range e.unsignedVariants(t, E, rng) {
+				Ev, err := e.plain.Marshal(uv.obj)
+				if err != nil || bytes.Equal(Ev, E) {
+					r.Trivial()
+					continue
+				}
+				hv, cv, vv := run(t, Ev, e.onM)
+				r.Eval(1)
+				verdict := "rejected"
+				if cv == nil && vv == nil {
+					verdict = "accepted"
+				}
+				r.Count(fmt.Sprintf("%s|unsigned-field %s|%s", t.name, uv.sub, verdict), 1)
+				r.Shape(fmt.Sprintf("%s unsigned-field %s %s", t.name, uv.sub, verdict))
+				if verdict == "accepted" && !bytes.Equal(hv, hOn) {
+					r.Violation(c.Idx, fmt.Sprintf("type=%s class=%s", t.name, uv.class),
+						fmt.Sprintf("%s: a copy that differs only in a field outside the signed content (%s) is accepted under another hash: %s.. vs %s..", t.name, uv.sub, short(hOn), short(hv)),
+						map[string]interface{}{"type": t.name, "class": uv.class, "sub_kind": uv.sub, "original": vk.Hex(E), "copy": vk.Hex(Ev), "hash_original": vk.Hex(hOn), "hash_copy": vk.Hex(hv)})
+				}
+			}
+		}
+
+		// the internal marshalizer wrapped several times (one chain per case): nothing longer than the strictest
+		// bound of the chain may be accepted
+		chain := wrapChains[(c.Idx/len(specs))%len(wrapChains)]
+		chainM, strict := chain.build(e.plain)
+		strictMax := len(E) + len(E)*int(strict)/100
+		chainRef := refOn
+		if len(E) > 0 {
+			hC, cC, vC := run(t, E, chainM)
+			if cC != nil || vC != nil || !bytes.Equal(hC, hOn) {
+				r.Inconclusive(fmt.Sprintf("canonical %s not accepted under its own hash by the marshalizer chain %s: %v / %v", t.name, chain.name, cC, vC))
+				return
+			}
+			r.Count("chain_canonical_accepted:"+chain.name, 1)
+		}
+		chainCheck := func(Em []byte, how string) {
+			if len(Em) <= strictMax {
+				r.Count("chain_mutant_within_strictest_bound", 1)
+				return
+			}
+			hC, cC, vC := run(t, Em, chainM)
+			r.Eval(1)
+			verdict := "rejected"
+			if cC == nil && vC == nil {
+				verdict = "accepted"
+			}
+			r.Count("chain:"+chain.name+":beyond-strictest:"+verdict, 1)
+			r.Count(fmt.Sprintf("%s|beyond-strictest-of-chain|%s", t.name, verdict), 1)
+			pct := "far"
+			if len(E) > 0 {
+				switch g := (len(Em) - len(E)) * 100 / len(E); {
+				case g <= 10:
+					pct = "<=10%"
+				case g <= 30:
+					pct = "<=30%"
+				case g <= 100:
+					pct = "<=100%"
+				}
+			}
+			r.Shape(fmt.Sprintf("%s chain=%s growth%s %s", t.name, chain.name, pct, verdict))
+			if verdict != "accepted" {
+				return
+			}
+			if chainRef == nil {
+				chainRef = hC
+				return
+			}
+			if !bytes.Equal(hC, chainRef) {
+				r.Violation(c.Idx, fmt.Sprintf("type=%s class=beyond-strictest-delta-of-rewrapped-marshalizer", t.name),
+					fmt.Sprintf("%s: marshalizer wrapped with size-check deltas %s: a %d-byte encoding (%s) of content whose canonical form has %d bytes is accepted although the strictest delta %d%% allows %d bytes; hashes %s.. vs %s..",
+						t.name, chain.name, len(Em), how, len(E), strict, strictMax, short(chainRef), short(hC)),
+					map[string]interface{}{"type": t.name, "chain": chain.name, "deltas": chain.deltas, "strictest_delta": strict, "canonical": vk.Hex(E), "mutant": vk.Hex(Em), "how": how,
+						"canonical_len": len(E), "mutant_len": len(Em), "max_size_with_strictest_delta": strictMax, "hash_reference": vk.Hex(chainRef), "hash_mutant": vk.Hex(hC)})
+			}
+		}
+
 		for _, class := range allClasses {
 			for a := 0; a < attempts; a++ {
 				ctx := &mutCtx{rng: rng, class: class, topSize: len(E), unkMode: a % 4, maxDepth: 2}
@@ -830,6 +910,7 @@ func main() {
 				}
 				// Em is a non-canonical encoding of the same content
 				r.Eval(1)
+				chainCheck(Em, class+"/"+sub)
 				verd := func(acc bool, h []byte, ref *[]byte) string {
 					if !acc {
 						return "rejected"
@@ -892,6 +973,26 @@ func main() {
 					r.Sample(detail)
 				}
 			}
+		}
+		// padded copies sized against the deltas of the chain: just beyond the strictest bound, between the strictest
+		// and each looser delta, far beyond
+		for _, g := range chain.growTargets(len(E), strict) {
+			ctx := &mutCtx{rng: rng, class: clsUnknown, topSize: len(E), unkMode: 4, grow: g, maxDepth: 1}
+			Em, sub, _ := mutate(E, t.schema, ctx, 0)
+			if sub == "" || Em == nil || bytes.Equal(Em, E) {
+				r.Trivial()
+				continue
+			}
+			o := t.empty()
+			if e.plain.Unmarshal(o, Em) != nil {
+				r.Trivial()
+				continue
+			}
+			if R, err := e.plain.Marshal(o); err != nil || !bytes.Equal(R, E) {
+				r.Trivial()
+				continue
+			}
+			chainCheck(Em, clsUnknown+"/"+sub)
 		}
 	})
 	// race detector reports (only with the RACE marker): a race inside the interceptor factories or the intercepted
